@@ -120,7 +120,7 @@ func (tdBindStream) Rule() string {
 
 var tdDNs = []string{"cn=alice,ou=people,dc=example,dc=org", "cn=alice,ou=people,dc=example,dc=org ", "cn=alice", "cn=alic", "CN=ALICE,ou=people,dc=example,dc=org",
 	"cn=bob,ou=people,dc=example,dc=org", "", "cn=eve,ou=people,dc=example,dc=org"}
-var tdPws = []string{"password", "passwor", "password1", "", "Password", "p", "\x00", tdLong, tdLong[:128] + "X" + tdLong[129:], tdLong[:199] + "X", tdLong[:150] + "X" + tdLong[151:]}
+var tdPws = []string{"password", "passwor", "password1", "", "Password", "p", "\x00", "s3cr3t:hunter2", "a|b c/d\x00e,f=g", tdLong, tdLong[:128] + "X" + tdLong[129:], tdLong[:199] + "X", tdLong[:150] + "X" + tdLong[151:]}
 
 // passwords longer than any fixed-size buffer one might compare them in, differing only far from their beginning
 var tdLong = strings.Repeat("0123456789abcdef", 12) + "01234567"
@@ -161,6 +161,23 @@ func (tdBindStream) Generate(rng *rand.Rand, n int, thorough bool) []Case {
 						break
 					}
 				}
+			}
+		}
+		if len(us) > 0 && rng.Intn(6) == 0 {
+			// the right credentials of a user, cut at another place: a piece of the password (up to one of its
+			// punctuation bytes, or just k bytes) presented as the tail of the bind DN, the rest as the password
+			u := us[rng.Intn(len(us))]
+			for _, a := range u.Attrs {
+				if a.Type != "password" || len(a.Vals) == 0 || len(a.Vals[0]) < 2 {
+					continue
+				}
+				p0 := a.Vals[0]
+				k := 1 + rng.Intn(len(p0)-1)
+				dn, pw = u.DN+p0[:k], p0[k:]
+				if j := strings.IndexAny(p0, ":|/, \x00="); j > 0 && j+1 < len(p0) && rng.Intn(2) == 0 {
+					dn, pw = u.DN+p0[j:j+1]+p0[:j], p0[j+1:]
+				}
+				break
 			}
 		}
 		anon := rng.Intn(2)
